@@ -305,231 +305,23 @@ impl X86Register {
 
 } // impl X86Register
 
+/// first / second operand of a binary expression, the operand of an extension / truncation (ghost destructuring)
 pub open spec fn lhs_of(e: Expression) -> Expression {
     match e {
-        Expression::And(l, _) | Expression::Or(l, _) | Expression::Shr(l, _) | Expression::Shl(l, _) => *l,
-        Expression::Zext(_, x) => *x,
+        Expression::Add(l, _) | Expression::Sub(l, _) | Expression::Mul(l, _) | Expression::Divu(l, _) | Expression::Modu(l, _)
+        | Expression::Divs(l, _) | Expression::Mods(l, _) | Expression::And(l, _) | Expression::Or(l, _) | Expression::Xor(l, _)
+        | Expression::Shl(l, _) | Expression::Shr(l, _) | Expression::AShr(l, _) | Expression::Cmpeq(l, _) | Expression::Cmpneq(l, _)
+        | Expression::Cmplts(l, _) | Expression::Cmpltu(l, _) => *l,
+        Expression::Zext(_, x) | Expression::Sext(_, x) | Expression::Trun(_, x) => *x,
         _ => e,
     }
 }
 pub open spec fn rhs_of(e: Expression) -> Expression {
     match e {
-        Expression::And(_, r) | Expression::Or(_, r) | Expression::Shr(_, r) | Expression::Shl(_, r) => *r,
+        Expression::Add(_, r) | Expression::Sub(_, r) | Expression::Mul(_, r) | Expression::Divu(_, r) | Expression::Modu(_, r)
+        | Expression::Divs(_, r) | Expression::Mods(_, r) | Expression::And(_, r) | Expression::Or(_, r) | Expression::Xor(_, r)
+        | Expression::Shl(_, r) | Expression::Shr(_, r) | Expression::AShr(_, r) | Expression::Cmpeq(_, r) | Expression::Cmpneq(_, r)
+        | Expression::Cmplts(_, r) | Expression::Cmpltu(_, r) => *r,
         _ => e,
     }
 }
-
-// ---- set: the three expression shapes --------------------------------------------------------------------------
-
-pub open spec fn low_src(ef: Expression, cm: Constant, fb: usize, value: Expression) -> Expression {
-    Expression::Or(
-        Box::new(Expression::And(Box::new(ef), Box::new(Expression::Constant(cm)))),
-        Box::new(Expression::Zext(fb, Box::new(value))))
-}
-
-pub open spec fn high_src(ef: Expression, cm: Constant, fb: usize, value: Expression, co: Constant) -> Expression {
-    Expression::Or(
-        Box::new(Expression::And(Box::new(ef), Box::new(Expression::Constant(cm)))),
-        Box::new(Expression::Shl(Box::new(Expression::Zext(fb, Box::new(value))), Box::new(Expression::Constant(co)))))
-}
-
-/// a write to the full register itself
-pub proof fn lemma_write_full(x: X86Register, value: Expression, env: Env)
-    requires x.rec_ok(), x.capstone_reg == x.full_reg, env_sorted(env), expr_wf(value), expr_bits(value) == x.bits,
-    ensures write_ok(x, value, value, env),
-{
-    lemma_eval_wf_val(value, env);
-}
-
-/// 8- / 16-bit register at offset 0:  full' = (full & (2^Fb - 2^b)) | zext(v)
-pub proof fn lemma_write_low(x: X86Register, ef: Expression, cm: Constant, value: Expression, env: Env)
-    requires
-        x.rec_ok(), x.capstone_reg != x.full_reg, x.offset == 0, x.bits < 32, env_sorted(env),
-        expr_wf(value), expr_bits(value) == x.bits,
-        expr_wf(ef), expr_bits(ef) == x.full_rec().bits, eval_spec(ef, env) == reg_read(x.full_rec(), env),
-        cm.wf(), cm.bits == x.full_rec().bits, cm.value@ == pow2(x.full_rec().bits as nat) - pow2(x.bits as nat),
-    ensures write_ok(x, value, low_src(ef, cm, x.full_rec().bits, value), env),
-{
-    let f = x.full_rec();
-    let fb = f.bits as nat;
-    let b = x.bits as nat;
-    lemma_full_rec_ok(x);
-    lemma_eval_wf_val(value, env);
-    let anded = Expression::And(Box::new(ef), Box::new(Expression::Constant(cm)));
-    let zx = Expression::Zext(f.bits, Box::new(value));
-    let src = low_src(ef, cm, f.bits, value);
-    assert(eval_spec(Expression::Constant(cm), env) == EvalR::Val(fb, cm.value@));
-    assert(eval_spec(anded, env) == bin_spec(BinOp::And, eval_spec(ef, env), EvalR::Val(fb, cm.value@)));
-    assert(eval_spec(zx, env) == zext_spec(fb, eval_spec(value, env)));
-    assert(eval_spec(src, env) == bin_spec(BinOp::Or, eval_spec(anded, env), eval_spec(zx, env)));
-    if let EvalR::Val(w, v) = eval_spec(value, env) {
-        if let Some((fw, full)) = env(reg_scalar(f)) {
-            reveal(bv_and); reveal(bv_or); reveal(bv_zext);
-            lemma_extract_low(full, fb);
-            lemma_small_mod(full, pow2(fb));
-            lemma_and_himask(full, b, fb);
-            lemma_pow2_pos(b);
-            lemma_fundamental_div_mod(full as int, pow2(b) as int);
-            let q = full / pow2(b);
-            assert((full - full % pow2(b)) as nat == q * pow2(b)) by (nonlinear_arith)
-                requires full as int == pow2(b) as int * (full as int / pow2(b) as int) + (full % pow2(b)) as int, q as int == full as int / pow2(b) as int, full % pow2(b) <= full;
-            lemma_mod_bound(full as int, pow2(b) as int);
-            lemma_or_disjoint(q, b, v);
-            lemma_extract_low(full, b);
-            lemma2_to64();
-            assert(pow2(0) == 1);
-            assert(extract(full, 0, b) * 1 == extract(full, 0, b));
-            assert(v * 1 == v);
-        }
-    }
-}
-
-/// 32-bit register in 64-bit mode:  full' = zext(v)
-pub proof fn lemma_write_zext(x: X86Register, value: Expression, env: Env)
-    requires
-        x.rec_ok(), x.capstone_reg != x.full_reg, x.offset == 0, x.bits == 32, x.full_rec().bits == 64, env_sorted(env),
-        expr_wf(value), expr_bits(value) == x.bits,
-    ensures write_ok(x, value, Expression::Zext(x.full_rec().bits, Box::new(value)), env),
-{
-    lemma_eval_wf_val(value, env);
-    reveal(bv_zext);
-}
-
-/// 8-bit register at offset o > 0 (ah, bh, ch, dh):  full' = (full & ~(((2^b)-1) << o)) | (zext(v) << o)
-pub proof fn lemma_write_high(x: X86Register, ef: Expression, cm: Constant, value: Expression, co: Constant, env: Env)
-    requires
-        x.rec_ok(), x.capstone_reg != x.full_reg, x.offset != 0, env_sorted(env),
-        expr_wf(value), expr_bits(value) == x.bits,
-        expr_wf(ef), expr_bits(ef) == x.full_rec().bits, eval_spec(ef, env) == reg_read(x.full_rec(), env),
-        cm.wf(), cm.bits == x.full_rec().bits,
-        cm.value@ == pow2(x.full_rec().bits as nat) - 1 - (pow2(x.bits as nat) - 1) * pow2(x.offset as nat),
-        co.wf(), co.bits == x.full_rec().bits, co.value@ == x.offset,
-    ensures write_ok(x, value, high_src(ef, cm, x.full_rec().bits, value, co), env),
-{
-    let f = x.full_rec();
-    let fb = f.bits as nat;
-    let b = x.bits as nat;
-    let o = x.offset as nat;
-    lemma_full_rec_ok(x);
-    lemma_eval_wf_val(value, env);
-    let anded = Expression::And(Box::new(ef), Box::new(Expression::Constant(cm)));
-    let zx = Expression::Zext(f.bits, Box::new(value));
-    let sh = Expression::Shl(Box::new(zx), Box::new(Expression::Constant(co)));
-    let src = high_src(ef, cm, f.bits, value, co);
-    assert(eval_spec(Expression::Constant(cm), env) == EvalR::Val(fb, cm.value@));
-    assert(eval_spec(Expression::Constant(co), env) == EvalR::Val(fb, co.value@));
-    assert(eval_spec(anded, env) == bin_spec(BinOp::And, eval_spec(ef, env), EvalR::Val(fb, cm.value@)));
-    assert(eval_spec(zx, env) == zext_spec(fb, eval_spec(value, env)));
-    assert(eval_spec(sh, env) == bin_spec(BinOp::Shl, eval_spec(zx, env), EvalR::Val(fb, co.value@)));
-    assert(eval_spec(src, env) == bin_spec(BinOp::Or, eval_spec(anded, env), eval_spec(sh, env)));
-    if let EvalR::Val(w, v) = eval_spec(value, env) {
-        if let Some((fw, full)) = env(reg_scalar(f)) {
-            reveal(bv_and); reveal(bv_or); reveal(bv_zext); reveal(bv_shl);
-            lemma_extract_low(full, fb);
-            lemma_small_mod(full, pow2(fb));
-            lemma_and_holemask(full, o, b, fb);
-            let e = extract(full, o, b);
-            let a = (full - e * pow2(o)) as nat;
-            lemma_clear_extract(full, o, b);
-            lemma_or_hole(a, o, b, v);
-            // v << o does not overflow the width
-            lemma_hole_bound(o, b, fb);
-            assert(v * pow2(o) < pow2(fb)) by (nonlinear_arith)
-                requires v < pow2(b), (pow2(b) - 1) * pow2(o) <= pow2(fb) - 1, pow2(o) >= 1;
-            lemma_small_mod(v * pow2(o), pow2(fb));
-        }
-    }
-}
-
-impl X86Register {
-
-//@ fn impl X86Register :: fn set
-//@ spec
-    requires
-        self.rec_ok(), expr_wf(value),
-        old(block).block_wf(), old(block).next_instruction_index < usize::MAX,
-    ensures
-        /*@wf*/ final(block).block_wf(),
-        /*@no_sort_error*/ expr_bits(value) == self.bits ==> r is Ok,
-        /*@effect_full*/ (expr_bits(value) == self.bits && r is Ok && self.capstone_reg == self.full_reg) ==> set_effect(*self, value, *old(block), *final(block)),
-        /*@effect_low*/ (expr_bits(value) == self.bits && r is Ok && self.capstone_reg != self.full_reg && self.offset == 0 && self.bits < 32) ==> set_effect(*self, value, *old(block), *final(block)),
-        /*@effect_zext32*/ (expr_bits(value) == self.bits && r is Ok && self.capstone_reg != self.full_reg && self.offset == 0 && self.bits >= 32) ==> set_effect(*self, value, *old(block), *final(block)),
-        /*@effect_high*/ (expr_bits(value) == self.bits && r is Ok && self.capstone_reg != self.full_reg && self.offset != 0) ==> set_effect(*self, value, *old(block), *final(block)),
-        /*@err_frame*/ r is Err ==> *final(block) == *old(block),
-    decreases (if self.capstone_reg == self.full_reg { 0nat } else { 1nat }),
-//@ enter
-    let ghost value0 = value;
-    proof {
-        broadcast use crate::strmap::axiom_into_string_str;
-        lemma_full_rec_ok(*self);
-        lemma_expr_wf_bits(value);
-        let f = self.full_rec();
-        lemma_lt_pow2(f.bits as nat);
-        lemma_small_mod(self.offset as nat, pow2(f.bits as nat));
-        if expr_bits(value) == self.bits {
-            if self.capstone_reg == self.full_reg {
-                assert forall|env: Env| env_sorted(env) implies #[trigger] write_ok(*self, value, value, env) by {
-                    lemma_write_full(*self, value, env);
-                }
-            } else if self.offset == 0 && self.bits == 32 && f.bits == 64 {
-                assert forall|env: Env| env_sorted(env) implies #[trigger] write_ok(*self, value, Expression::Zext(f.bits, Box::new(value)), env) by {
-                    lemma_write_zext(*self, value, env);
-                }
-            }
-        }
-    }
-//@ before 0 `let mask`
-    proof { lemma_ones_shl(self.bits as u64); }
-//@ before 0 `full_reg.set(block, expr)`
-    proof {
-        let f = self.full_rec();
-        let ef = lhs_of(lhs_of(expr));
-        let cm = rhs_of(lhs_of(expr))->Constant_0;
-        lemma_pow2_mono(self.bits as nat, f.bits as nat);
-        lemma_pow2_pos(self.bits as nat);
-        lemma_trim_top(pow2(self.bits as nat), f.bits as nat);
-        assert(expr_wf(Expression::Constant(cm)));
-        assert(expr_wf(lhs_of(expr)));
-        assert(expr_wf(rhs_of(expr)));
-        assert(expr_wf(expr) && expr_bits(expr) == f.bits);
-        if expr_bits(value0) == self.bits {
-            assert(expr == low_src(ef, cm, f.bits, value0));
-            // (the premise on the mask constant keeps a wrong mask from failing HERE: it then fails the named postcondition effect_low)
-            assert forall|env: Env| (env_sorted(env) && cm.value@ == pow2(f.bits as nat) - pow2(self.bits as nat)) implies #[trigger] write_ok(*self, value0, expr, env) by {
-                lemma_write_low(*self, ef, cm, value0, env);
-            }
-        }
-    }
-//@ before 0 `full_reg.set(block, Expr::zext(`
-    proof {
-        let f = self.full_rec();
-        assert(expr_bits(value0) == self.bits ==> expr_wf(Expression::Zext(f.bits, Box::new(value0))));
-    }
-//@ before 1 `let mask`
-    proof { lemma_range_mask(self.bits as u64, self.offset as u64); }
-//@ before 1 `full_reg.set(block, expr)`
-    proof {
-        let f = self.full_rec();
-        let ef = lhs_of(lhs_of(expr));
-        let cm = rhs_of(lhs_of(expr))->Constant_0;
-        let co = rhs_of(rhs_of(expr))->Constant_0;
-        lemma_hole_bound(self.offset as nat, self.bits as nat, f.bits as nat);
-        lemma_trim_top((1 + (pow2(self.bits as nat) - 1) * pow2(self.offset as nat)) as nat, f.bits as nat);
-        assert(expr_wf(Expression::Constant(cm)));
-        assert(expr_wf(Expression::Constant(co)));
-        assert(expr_wf(lhs_of(expr)));
-        assert(expr_wf(lhs_of(rhs_of(expr))));
-        assert(expr_wf(rhs_of(expr)));
-        assert(expr_wf(expr) && expr_bits(expr) == f.bits);
-        if expr_bits(value0) == self.bits {
-            assert(expr == high_src(ef, cm, f.bits, value0, co));
-            // (the premise on the mask constant keeps a wrong mask from failing HERE: it then fails the named postcondition effect_high)
-            assert forall|env: Env| (env_sorted(env) && cm.value@ == pow2(f.bits as nat) - 1 - (pow2(self.bits as nat) - 1) * pow2(self.offset as nat))
-                implies #[trigger] write_ok(*self, value0, expr, env) by {
-                lemma_write_high(*self, ef, cm, value0, co, env);
-            }
-        }
-    }
-//@ end
-
-} // impl X86Register
